@@ -798,6 +798,31 @@ static void run_line(char *line) {
 		memset(seekbuf, 0xEE, k.n <= sizeof seekbuf ? k.n : 0);
 		memset(k.p, 0xEE, k.n);
 		free(k.p);
+	} else if (!strcmp(op, "null_destroys")) {
+		/* every destroy function on a handle that holds no object, twice (a destroy function clears the handle): documented no-ops */
+		for (int rep = 0; rep < 2; rep++) {
+			struct mtbl_iter *a = NULL; mtbl_iter_destroy(&a);
+			struct mtbl_reader *b = NULL; mtbl_reader_destroy(&b);
+			struct mtbl_reader_options *c = NULL; mtbl_reader_options_destroy(&c);
+			struct mtbl_writer *d = NULL; mtbl_writer_destroy(&d);
+			struct mtbl_writer_options *e = NULL; mtbl_writer_options_destroy(&e);
+			struct mtbl_merger *f = NULL; mtbl_merger_destroy(&f);
+			struct mtbl_merger_options *g = NULL; mtbl_merger_options_destroy(&g);
+			struct mtbl_sorter *h = NULL; mtbl_sorter_destroy(&h);
+			struct mtbl_sorter_options *i2 = NULL; mtbl_sorter_options_destroy(&i2);
+			struct mtbl_fileset *j = NULL; mtbl_fileset_destroy(&j);
+			struct mtbl_fileset_options *k = NULL; mtbl_fileset_options_destroy(&k);
+			struct mtbl_source *l = NULL; mtbl_source_destroy(&l);
+			struct mtbl_threadpool *m = NULL; mtbl_threadpool_destroy(&m);
+			/* and option objects created and destroyed untouched, the handle cleared by the call */
+			struct mtbl_reader_options *ro = mtbl_reader_options_init(); mtbl_reader_options_destroy(&ro); mtbl_reader_options_destroy(&ro);
+			struct mtbl_writer_options *wo = mtbl_writer_options_init(); mtbl_writer_options_destroy(&wo); mtbl_writer_options_destroy(&wo);
+			struct mtbl_merger_options *mo = mtbl_merger_options_init(); mtbl_merger_options_destroy(&mo); mtbl_merger_options_destroy(&mo);
+			struct mtbl_sorter_options *so = mtbl_sorter_options_init(); mtbl_sorter_options_destroy(&so); mtbl_sorter_options_destroy(&so);
+			struct mtbl_fileset_options *fo = mtbl_fileset_options_init(); mtbl_fileset_options_destroy(&fo); mtbl_fileset_options_destroy(&fo);
+			if (ro || wo || mo || so || fo) { sb_printf(&s, "{\"e\":\"BadClosure\",\"fn\":\"destroy did not clear the handle\"}"); sb_emit(&s); }
+		}
+		sb_printf(&s, "{\"e\":\"Note\",\"t\":\"null_destroys\"}");
 	} else if (!strcmp(op, "it_destroy")) {
 		int i = IARG(1);
 		struct itslot *sl = &iters[i];
